@@ -155,6 +155,13 @@ def union_axioms(used):
         md = unS(v)
         ax.append(z3.ForAll([v, o], md_ok_f(o, v) == z3.ForAll([i], z3.Implies(z3.And(0 <= i, i < Q.slen(md)), ext_ok_f(o, Q.at(md, i)))),
                             patterns=[md_ok_f(o, v)]))
+        # a metadata item constrains membership only when it is an Extension: then through its own meaning
+        if "Extension" in used:
+            ax.append(z3.ForAll([v, o], ext_ok_f(o, v) == z3.Implies(sub(typeof(v), CLASSES.const("Extension")), mem_f(o, v)), patterns=[ext_ok_f(o, v)]))
+            mdv = unS(fld("metadata")(v))
+            ax.append(z3.ForAll([v], z3.Implies(z3.And(static_f(v), typeof(v) == CLASSES.const("AnnotatedValue")),
+                                               z3.ForAll([i], z3.Implies(z3.And(0 <= i, i < Q.slen(mdv), sub(typeof(Q.at(mdv, i)), CLASSES.const("Extension"))), static_f(Q.at(mdv, i))))),
+                                patterns=[static_f(v)]))
     if "KnownValue" in used:
         # gamma(KnownValue(x)) = the runtime objects that are the literal x (identical, or == with the same type);
         # `same_lit` (same type and ==) is an equivalence on literals that preserves `lit` -- the property's
